@@ -8,8 +8,10 @@ CONSTANTS
   PageSizeRule = "le0"
   GuardLocation = TRUE
   GuardAlloc = TRUE
+  StrictRangeTooLong = FALSE
 INVARIANT NoPanicState
 INVARIANT CorruptNeverCleanEOF
+INVARIANT ShortNeverCleanEOF
 INVARIANT NoRequestAfterTransportError
 POSTCONDITION Accepted
 CHECK_DEADLOCK FALSE
